@@ -121,7 +121,7 @@ def boundary_digests(args):
         if variant.get('verbose'):
             runkw['verbose'] = True
         done, k = False, 0
-        with warnings.catch_warnings():
+        with warnings.catch_warnings(), common.cpu_limit(1500):
             warnings.simplefilter('ignore')
             while not done and k < variant.get('max_boundaries', 400):
                 n0 = int(s.n_like)
